@@ -29,6 +29,21 @@ inductive Op
 
 /-! ### compile: AST → visitor actions in visit order -/
 
+/-- Which of the proposed repairs (fixes/C05-D9*.diff) the analysed code carries.  All `false` = the unchanged tree.
+    The harness probes the real code for each flag, so the correspondence check follows the code as it is. -/
+structure Fixes where
+  /-- (b) `except … as e`: the name is unbound again after the handler body -/
+  exceptUnbind : Bool := false
+  /-- (c) `x += v` loads `x` (and visits the value) before storing it -/
+  augLoad : Bool := false
+  /-- (f) `for t in it`: the iterable is visited before the target -/
+  forIterFirst : Bool := false
+  /-- (g) `t: ann = v`: value, then target (only when there is a value), then annotation -/
+  annValueFirst : Bool := false
+  /-- (a) comprehensions: first iterable in the enclosing scope, the rest in a scope that hides class scopes -/
+  compScope : Bool := false
+  deriving DecidableEq, Repr, Inhabited
+
 def strConsts : List Expr → Option (List Str)
   | [] => some []
   | .str s :: r => (strConsts r).map (s :: ·)
@@ -36,59 +51,65 @@ def strConsts : List Expr → Option (List Str)
 
 mutual
   /-- expression in Load context -/
-  def cExpr : Expr → List Op
+  def cExpr (fx : Fixes) : Expr → List Op
     | .name n => [.load n]
     | .attr e a =>
       match (Expr.attr e a).dotted with
       | some ps => [.load (joinDots ps)]
-      | none => cExpr e
-    | .call f args => cExpr f ++ cExprs args
+      | none => cExpr fx e
+    | .call f args => cExpr fx f ++ cExprs fx args
     | .const => []
     | .bool _ => []
     | .str _ => []
-    | .binop l r => cExpr l ++ cExpr r
+    | .binop l r => cExpr fx l ++ cExpr fx r
     | .lambda a body =>
-      [.pushScope true false false] ++ cArgs a ++ [.enterFunc, .pushScope false false false] ++ cExpr body
+      [.pushScope true false false] ++ cArgs fx a ++ [.enterFunc, .pushScope false false false] ++ cExpr fx body
         ++ [.popScope, .exitFunc, .popScope]
-    | .comp _ elts gens => [.pushScope true false false] ++ cGens gens ++ cExprs elts ++ [.popScope]
-    | .ifExp t a b => cExpr t ++ cExpr a ++ cExpr b
-    | .tuple es => cExprs es
-    | .list es => cExprs es
-    | .subscript v i => cExpr v ++ cExpr i
-  def cExprs : List Expr → List Op
+    | .comp _ elts gens =>
+      if fx.compScope then
+        match gens with
+        | .mk t it ifs :: gs =>
+          cExpr fx it ++ [.pushScope false false false] ++ cTarget fx t ++ cExprs fx ifs ++ cGens fx gs ++ cExprs fx elts ++ [.popScope]
+        | [] => [.pushScope true false false] ++ cExprs fx elts ++ [.popScope]
+      else [.pushScope true false false] ++ cGens fx gens ++ cExprs fx elts ++ [.popScope]
+    | .ifExp t a b => cExpr fx t ++ cExpr fx a ++ cExpr fx b
+    | .tuple es => cExprs fx es
+    | .list es => cExprs fx es
+    | .subscript v i => cExpr fx v ++ cExpr fx i
+  def cExprs (fx : Fixes) : List Expr → List Op
     | [] => []
-    | e :: es => cExpr e ++ cExprs es
+    | e :: es => cExpr fx e ++ cExprs fx es
   /-- expression in Store context (assignment / for / with / comprehension targets) -/
-  def cTarget : Expr → List Op
+  def cTarget (fx : Fixes) : Expr → List Op
     | .name n => [.store n]
     | .attr e a =>
       match (Expr.attr e a).dotted with
       | some ps => [.store (joinDots ps)]
-      | none => cExpr e
-    | .tuple es => cTargets es
-    | .list es => cTargets es
-    | .subscript v i => cExpr v ++ cExpr i
+      | none => cExpr fx e
+    | .tuple es => cTargets fx es
+    | .list es => cTargets fx es
+    | .subscript v i => cExpr fx v ++ cExpr fx i
     | _ => []          -- not a valid assignment target in Python
-  def cTargets : List Expr → List Op
+  def cTargets (fx : Fixes) : List Expr → List Op
     | [] => []
-    | e :: es => cTarget e ++ cTargets es
-  def cGens : List Gen → List Op
+    | e :: es => cTarget fx e ++ cTargets fx es
+  def cGens (fx : Fixes) : List Gen → List Op
     | [] => []
-    | .mk t it ifs :: gs => cExpr it ++ cTarget t ++ cExprs ifs ++ cGens gs
-  def cOptExprs : List (Option Expr) → List Op
+    | .mk t it ifs :: gs => cExpr fx it ++ cTarget fx t ++ cExprs fx ifs ++ cGens fx gs
+  def cOptExprs (fx : Fixes) : List (Option Expr) → List Op
     | [] => []
-    | none :: r => cOptExprs r
-    | some e :: r => cExpr e ++ cOptExprs r
+    | none :: r => cOptExprs fx r
+    | some e :: r => cExpr fx e ++ cOptExprs fx r
   /-- `visit_arg` for each parameter: annotation, then the name as a Store -/
-  def cParams : List Param → List Op
+  def cParams (fx : Fixes) : List Param → List Op
     | [] => []
-    | .mk n none :: ps => .store n :: cParams ps
-    | .mk n (some ann) :: ps => cExpr ann ++ .store n :: cParams ps
+    | .mk n none :: ps => .store n :: cParams fx ps
+    | .mk n (some ann) :: ps => cExpr fx ann ++ .store n :: cParams fx ps
   /-- `visit_arguments` -/
-  def cArgs : Args → List Op
+  def cArgs (fx : Fixes) : Args → List Op
     | .mk args defaults vararg kwonly kwdefaults kwarg =>
-      [.upScope] ++ cExprs defaults ++ cOptExprs kwdefaults ++ [.downScope]
-        ++ cParams args ++ cParams kwonly
+      [.upScope] ++ cExprs fx defaults ++ cOptExprs fx kwdefaults ++ [.downScope]
+        ++ cParams fx args ++ cParams fx kwonly
         ++ (match vararg with | some v => [.store v] | none => [])
         ++ (match kwarg with | some v => [.store v] | none => [])
 end
@@ -111,9 +132,9 @@ def cAll (targets : List Expr) (v : Expr) : List Op :=
     if n = "__all__".toList then (match strConsts es with | some ns => [.allNames ns] | none => []) else []
   | _, _ => []
 
-def cOptExpr : Option Expr → List Op
+def cOptExpr (fx : Fixes) : Option Expr → List Op
   | none => []
-  | some e => cExpr e
+  | some e => cExpr fx e
 
 /-- `visit_alias` / `_visit_StoreImport`: for `import a.b.c` (no asname, not a star) store `a`, `a.b`, then the name. -/
 def cAlias (_isFrom : Bool) (a : Alias) : List Op :=
@@ -121,57 +142,80 @@ def cAlias (_isFrom : Bool) (a : Alias) : List Op :=
   let pre := if a.asname.isNone ∧ a.name ≠ ['*'] then ((prefixes (splitDots a.name)).dropLast).map (fun p => Op.store (joinDots p)) else []
   pre ++ [.store name]
 
-def cWithItems : List WithItem → List Op
+def cWithItems (fx : Fixes) : List WithItem → List Op
   | [] => []
-  | w :: ws => cExpr w.ctx ++ (match w.target with | some t => cTarget t | none => []) ++ cWithItems ws
+  | w :: ws => cExpr fx w.ctx ++ (match w.target with | some t => cTarget fx t | none => []) ++ cWithItems fx ws
 
 /-- decorators sit on the lines just above the `def` / `class` line -/
-def cDecos (ln : Nat) : List Expr → List Op
+def cDecos (fx : Fixes) (ln : Nat) : List Expr → List Op
   | [] => []
-  | d :: ds => .setLine (ln - (ds.length + 1)) :: (cExpr d ++ cDecos ln ds)
+  | d :: ds => .setLine (ln - (ds.length + 1)) :: (cExpr fx d ++ cDecos fx ln ds)
 
-def cDelTargets : List Expr → List Op
+def cDelTargets (fx : Fixes) : List Expr → List Op
   | [] => []
-  | .name n :: r => .delName n :: cDelTargets r
-  | .attr e _ :: r => cExpr e ++ cDelTargets r
-  | e :: r => cExpr e ++ cDelTargets r
+  | .name n :: r => .delName n :: cDelTargets fx r
+  | .attr e _ :: r => cExpr fx e ++ cDelTargets fx r
+  | e :: r => cExpr fx e ++ cDelTargets fx r
+
+/-- fix (c): the Load of an augmented-assignment target, visited before the value -/
+def cAugLoad (fx : Fixes) : Expr → List Op
+  | .name n => [.load n]
+  | .attr e a =>
+    match (Expr.attr e a).dotted with
+    | some ps => [.load (joinDots ps)]
+    | none => cExpr fx e
+  | _ => []
+
+/-- fix (g): `t: ann` without a value only evaluates the sub-expressions of a non-Name target -/
+def cAnnBare (fx : Fixes) : Expr → List Op
+  | .attr e _ => cExpr fx e
+  | .subscript v i => cExpr fx v ++ cExpr fx i
+  | _ => []
 
 mutual
   /-- statement starting on line `ln` -/
-  def cStmt (ln : Nat) : Stmt → List Op
-    | .expr e => cExpr e
+  def cStmt (fx : Fixes) (ln : Nat) : Stmt → List Op
+    | .expr e => cExpr fx e
     | .assign targets v =>
-      cExpr v ++ cTargets targets ++ cAll targets v
-    | .augAssign t v => cTarget t ++ cExpr v
-    | .annAssign t ann v => cTarget t ++ cExpr ann ++ cOptExpr v
+      cExpr fx v ++ cTargets fx targets ++ cAll targets v
+    | .augAssign t v =>
+      if fx.augLoad then cAugLoad fx t ++ cExpr fx v ++ cTarget fx t else cTarget fx t ++ cExpr fx v
+    | .annAssign t ann v =>
+      if fx.annValueFirst then
+        (match v with | some e => cExpr fx e ++ cTarget fx t | none => cAnnBare fx t) ++ cExpr fx ann
+      else cTarget fx t ++ cExpr fx ann ++ cOptExpr fx v
     | .import_ names => (names.map (cAlias false)).flatten
     | .importFrom _ names => (names.map (cAlias true)).flatten
     | .funcDef name a body decos returns =>
-      [.pushScope true false false, .dunderClass] ++ cDecos ln decos ++ [.setLine ln] ++ cArgs a ++ cOptExpr returns
-        ++ [.enterFunc, .pushScope false false true, .storeIfNotInClass name] ++ cStmts ln body
+      [.pushScope true false false, .dunderClass] ++ cDecos fx ln decos ++ [.setLine ln] ++ cArgs fx a ++ cOptExpr fx returns
+        ++ [.enterFunc, .pushScope false false true, .storeIfNotInClass name] ++ cStmts fx ln body
         ++ [.popScope, .exitFunc, .popScope, .store name]
     | .classDef name bases body decos =>
-      cExprs bases ++ cDecos ln decos ++ [.classDelayed name, .pushScope false true false, .incClass, .store name]
-        ++ cStmts ln body ++ [.decClass, .popScope, .removeMissing name, .store name]
-    | .for_ t it body orelse => cTarget t ++ cExpr it ++ cStmts ln body ++ cStmts ln orelse
-    | .while_ t body orelse => cExpr t ++ cStmts ln body ++ cStmts ln orelse
-    | .if_ t body orelse => cExpr t ++ cStmts ln body ++ cStmts ln orelse
-    | .with_ items body => cWithItems items ++ cStmts ln body
-    | .try_ body hs orelse final => cStmts ln body ++ cHandlers ln hs ++ cStmts ln orelse ++ cStmts ln final
-    | .return_ e => cOptExpr e
+      cExprs fx bases ++ cDecos fx ln decos ++ [.classDelayed name, .pushScope false true false, .incClass, .store name]
+        ++ cStmts fx ln body ++ [.decClass, .popScope, .removeMissing name, .store name]
+    | .for_ t it body orelse =>
+      (if fx.forIterFirst then cExpr fx it ++ cTarget fx t else cTarget fx t ++ cExpr fx it)
+        ++ cStmts fx ln body ++ cStmts fx ln orelse
+    | .while_ t body orelse => cExpr fx t ++ cStmts fx ln body ++ cStmts fx ln orelse
+    | .if_ t body orelse => cExpr fx t ++ cStmts fx ln body ++ cStmts fx ln orelse
+    | .with_ items body => cWithItems fx items ++ cStmts fx ln body
+    | .try_ body hs orelse final => cStmts fx ln body ++ cHandlers fx ln hs ++ cStmts fx ln orelse ++ cStmts fx ln final
+    | .return_ e => cOptExpr fx e
     | .pass => []
-    | .raise_ e => cExpr e
-    | .delete targets => cDelTargets targets
+    | .raise_ e => cExpr fx e
+    | .delete targets => cDelTargets fx targets
     | .global_ _ => []
     | .nonlocal_ _ => []
-    | .located l s => .setLine l :: cStmt l s
-  def cStmts (ln : Nat) : List Stmt → List Op
+    | .located l s => .setLine l :: cStmt fx l s
+  def cStmts (fx : Fixes) (ln : Nat) : List Stmt → List Op
     | [] => []
-    | s :: ss => cStmt ln s ++ cStmts ln ss
-  def cHandlers (ln : Nat) : List Handler → List Op
+    | s :: ss => cStmt fx ln s ++ cStmts fx ln ss
+  def cHandlers (fx : Fixes) (ln : Nat) : List Handler → List Op
     | [] => []
     | .mk l type name body :: hs =>
-      .setLine l :: (cOptExpr type ++ (match name with | some n => [.store n] | none => []) ++ cStmts l body) ++ cHandlers ln hs
+      .setLine l :: (cOptExpr fx type ++ (match name with | some n => [.store n] | none => []) ++ cStmts fx l body
+          ++ (match name with | some n => if fx.exceptUnbind then [.delName n] else [] | none => []))
+        ++ cHandlers fx ln hs
 end
 
 /-! ### visitor state and `step` -/
@@ -320,11 +364,19 @@ def initState (builtins : Scope) (userNs : List Scope) : AState :=
   let ids := normIds ((normIds user).filter (fun i => !(heap.get i).isClass) ++ [3 + userNs.length])
   { heap := heap, stack := { ids := ids } }
 
+/-- the analysis of the code carrying the repairs `fx` -/
+def analyzeFx (fx : Fixes) (reg : Registry) (builtins : Scope) (userNs : List Scope) (prog : List Stmt) : AState :=
+  finishDeferred reg (runOps reg (initState builtins userNs) (cStmts fx 0 prog))
+
+/-- the analysis of the unchanged tree -/
 def analyze (reg : Registry) (builtins : Scope) (userNs : List Scope) (prog : List Stmt) : AState :=
-  finishDeferred reg (runOps reg (initState builtins userNs) (cStmts 0 prog))
+  analyzeFx {} reg builtins userNs prog
 
 /-- `find_missing_imports(source, namespaces)` for a multi-statement source -/
+def findMissingFx (fx : Fixes) (reg : Registry) (builtins : Scope) (userNs : List Scope) (prog : List Stmt) : List Str :=
+  sortedSet ((analyzeFx fx reg builtins userNs prog).missing.map (·.name))
+
 def findMissing (reg : Registry) (builtins : Scope) (userNs : List Scope) (prog : List Stmt) : List Str :=
-  sortedSet ((analyze reg builtins userNs prog).missing.map (·.name))
+  findMissingFx {} reg builtins userNs prog
 
 end Pfb.PyCore
